@@ -71,7 +71,12 @@ def connected_hypergraphs(draw, tier):
             "nodes_first": draw(st.booleans())}
 
 
-@with_history
+def _warmup_rw(h):
+    from hypergraphx.dynamics import randwalk as RW
+    RW.transition_matrix(h)
+
+
+@with_history(warmup=_warmup_rw)
 def build_rw(hc):
     from hypergraphx import Hypergraph
     h = Hypergraph()
